@@ -89,10 +89,12 @@ Pr(e, mode) ==
     [] e.t = "neg"  -> <<"-">> \o PrW(e.e, mode, e.e.t = "bin")
     [] e.t = "idx"  -> PrW(e.l, mode, e.l.t \in {"bin", "not", "neg"}) \o <<"[">> \o PrW(e.i, mode, FALSE) \o <<"]">>
     [] e.t = "call" -> <<e.f, "(">> \o PrList(e.args, mode) \o <<")">>
+    [] e.t = "callx" -> PrW(e.f, mode, e.f.t \in {"bin", "not", "neg"}) \o <<"(">> \o PrList(e.args, mode) \o <<")">>
     [] e.t = "arr"  -> <<"[">> \o PrList(e.xs, mode) \o <<"]">>
     [] e.t = "int"  -> <<ToString(e.n)>>
     [] e.t = "bool" -> <<"true">>
     [] e.t = "id"   -> <<e.id>>
+    [] e.t = "nilx" -> <<>>
 
 \* ---- canonical prefix form of a tree (the harness computes the same from the real AST)
 CanonSeq(xs) == Flat([i \in 1..Len(xs) |-> Canon(xs[i])])
@@ -107,6 +109,8 @@ Canon(e) ==
     [] e.t = "int"  -> <<"int", ToString(e.n)>>
     [] e.t = "bool" -> <<"bool", "true">>
     [] e.t = "id"   -> <<"id", e.id>>
+    [] e.t = "nilx" -> <<"<nil>">>
+CanonStmts(ss) == IF Len(ss) = 1 THEN Canon(ss[1]) ELSE <<"stmts", ToString(Len(ss))>> \o CanonSeq(ss)
 
 \* the source text of a token word: tokens separated by single spaces
 Spaced(ts) == JoinWith([i \in 1..Len(ts) |-> <<ts[i]>>], <<" ">>)
@@ -142,7 +146,7 @@ AddTok == /\ Family = "word" /\ res.k = "none" /\ Len(word) < WordLen
           /\ \E tk \in WordToks : word' = Append(word, tk)
           /\ UNCHANGED <<tree, res>>
 FinishWord == /\ Family = "word" /\ res.k = "none" /\ word # <<>>
-              /\ res' = [k |-> "word", p |-> ParseAll(word)]
+              /\ res' = [k |-> "word", p |-> ParseTag(Append(word, "%>"))]
               /\ UNCHANGED <<tree, word>>
 
 Next == Expand \/ FinishTree \/ AddTok \/ FinishWord
@@ -154,9 +158,11 @@ Modes == {"min", "alt", "full"}
 PrattAgree == res.k # "tree" \/
               \A m \in Modes : LET w == Pr(tree, m) p == ParseAll(w) IN p.ok /\ p.n = tree /\ p.i = Len(w)
 
+\* what the machine accepts, printed statement by statement by the documented grammar, parses to the same
+\* statements again and is the same word up to parentheses
 Reprint == res.k # "word" \/ ~res.p.ok \/
-           (LET w2 == Pr(res.p.n, "min") p2 == ParseAll(w2) IN
-              /\ p2.ok /\ p2.n = res.p.n
+           (LET w2 == Flat([i \in 1..Len(res.p.stmts) |-> Pr(res.p.stmts[i], "min")]) p2 == ParseTag(Append(w2, "%>")) IN
+              /\ p2.ok /\ p2.stmts = res.p.stmts
               /\ NoParens(w2) = NoParens(word))
 
 Expect(r) == CASE r.k = "out" -> [k |-> "out", pieces |-> r.pieces, log |-> r.log]
@@ -173,6 +179,6 @@ EmitCase ==
                                     data |-> Vals[res.v], nops |-> NOps(tree), expect |-> Expect(res.run)]))
     [] res.k = "word" ->
          PrintT("CASE " \o ToJson([gen |-> "PrattWord", src |-> Source(word), ok |-> res.p.ok,
-                                    canon |-> IF res.p.ok THEN Canon(res.p.n) ELSE <<>>]))
+                                    canon |-> IF res.p.ok THEN CanonStmts(res.p.stmts) ELSE <<>>]))
     [] OTHER -> TRUE
 =============================================================================
